@@ -1652,6 +1652,26 @@ fn process_fn(req: &ItemReq, opts: &Opts, file: &syn::File, uc: &BTreeMap<String
     if opts.extra.contains_key("drop_generics") {
         sig.generics = Default::default();
     }
+    // R-GENERIC.drop_bound: bounds that only serve removed message formatting (Debug, Display) are dropped
+    if let Some(list) = opts.extra.get("drop_bounds") {
+        let names: Vec<String> = list.split(',').map(|x| x.trim().to_string()).collect();
+        let keep = |b: &syn::TypeParamBound| match b {
+            syn::TypeParamBound::Trait(t) => !names.contains(&t.path.segments.last().map(|s| s.ident.to_string()).unwrap_or_default()),
+            _ => true,
+        };
+        for gp in sig.generics.params.iter_mut() {
+            if let syn::GenericParam::Type(tp) = gp {
+                tp.bounds = tp.bounds.iter().filter(|b| keep(b)).cloned().collect();
+            }
+        }
+        if let Some(wc) = sig.generics.where_clause.as_mut() {
+            for pr in wc.predicates.iter_mut() {
+                if let syn::WherePredicate::Type(pt) = pr {
+                    pt.bounds = pt.bounds.iter().filter(|b| keep(b)).cloned().collect();
+                }
+            }
+        }
+    }
 
     // 3. rewriting
     let mut rw = Rw {
